@@ -4,7 +4,7 @@ from __future__ import annotations
 import time, traceback
 import z3
 from .symexec import Interp, Unsupported, Obligation, SAdt
-from .interp3 import Interp3 as Interp2
+from .interp4 import Interp4 as Interp2
 from .speceval import Val, SpecError
 from .calls import spec_bool, spec_term
 from .vc import discharge, Verdict
@@ -23,8 +23,14 @@ def lemma_instances(I, c, env, lemmas):
         lenv = {}
         for lv, p in mapping.items():
             lenv[lv] = spec_term(I, p[1:], env, lname) if p.startswith("@") else env[p]
+        qvars = []
+        for lv, ls in lm.vars:
+            if lv not in lenv:       # not instantiated by the contract: universally quantified (z3 instantiates by matching)
+                qc = z3.Const(f"{lname}_{lv}", I.w.sort(ls))
+                qvars.append(qc)
+                lenv[lv] = Val(ls, qc)
         v = I.w.eval(_ast.parse(lm.expr, mode="eval").body, lenv, SpecFn(lname, [], "Bool", "spec"), want="Bool")
-        out.append(v.v)
+        out.append(z3.ForAll(qvars, v.v) if qvars else v.v)
     return out
 
 
@@ -55,7 +61,7 @@ def _verify_contract(w, src, db, c, lemma_fn=None, timeout_ms=10000):
         if key in seen:
             continue
         seen.add(key)
-        verdicts.append(discharge(ob, I.axioms, I.nat_consts, timeout_ms))
+        verdicts.append(discharge(ob, list(I.axioms) + list(getattr(I, "q_axioms", [])), I.nat_consts, timeout_ms))
     # make names unique
     names = {}
     for v in verdicts:
@@ -79,8 +85,10 @@ def contract_obligations(I, c, lemma_fn=None):
             args[p].pyclass = c.self_class if s not in ("Node",) else None
         env[p] = Val(s, const)
     pre = [spec_bool(I, r, env, c.name) for r in c.requires]
+    I.q_axioms = []
     if lemma_fn is not None:
-        I.axioms.extend(lemma_fn(I, env))
+        for ax in lemma_fn(I, env):
+            (I.q_axioms if z3.is_quantifier(ax) else I.axioms).append(ax)     # quantified lemmas only at discharge time
     # vacuity: the precondition must be satisfiable
     s = z3.Solver(); s.set("timeout", 5000)
     for a in I.axioms: s.add(a)
